@@ -64,8 +64,13 @@ pub fn capi_case(
     tweak(&mut mp);
     mp.dist = crate::gen::DistProfile::Const;
     mp.prob_style = 1;
-    crate::gen::fw_case(machines, &mp, hp, true, 0)
-        .prop_map(|mut c| {
+    (crate::gen::fw_case(machines, &mp, hp, true, 0), proptest::option::weighted(0.15, (proptest::prelude::any::<u8>(), proptest::prelude::any::<u8>())))
+        .prop_map(|(mut c, dup)| {
+            // the same machine listed twice (two identical lines for maybenot_start) is two machines
+            if let (Some((i, j)), true) = (dup, c.machines.len() >= 2) {
+                let n = c.machines.len();
+                c.machines[j as usize % n] = c.machines[i as usize % n].clone();
+            }
             c.machines = c.machines.into_iter().map(c20::clock_independent).collect();
             c.max_blocking_frac = crate::spec::Fx(0.0);
             c.seed = CAPI_MARK;
